@@ -213,4 +213,4 @@ def run(report, findings):
         "rule": "distinct strings; non-trivial = accepted by scanner+parser, so the full contract "
                 "(covers/size/strat, re-parse of the fully parenthesised form, whitespace variants) was evaluated",
     })
-    report.assumptions = report.coverage["trusted_base"]
+    report.assumptions = list(dict.fromkeys(list(report.assumptions) + report.coverage["trusted_base"]))
